@@ -187,4 +187,10 @@ theorem f16_clamps_within_decoder_range :
         lo == loVal && hi == hiVal && litLe unLo loVal && litLe hiVal unHi && litLe lo hi
       | _ => true) = true := by decide +kernel
 
+/-- every registered type's Pack / Unpack was recognised as one of the modelled shapes (regenerated
+    table): the theorems above speak about the code that is there -/
+theorem shapes_recognised :
+    Knx.Gen.shapes.all (fun p => match p.2 with | .unknown _ => false | _ => true) = true := by
+  decide +kernel
+
 end Props.C07
